@@ -43,6 +43,9 @@ pub fn decide(d: &mut Draw) -> Outcome {
                 }
             }
         } else if dg.is_error {
+            if std::env::var("C15_SKIPDUMP").ok().as_deref() == Some(dg.code.as_str()) {
+                println!("--- skipped ({}: {}) ---\n{text}", dg.code, dg.msg);
+            }
             return Outcome::skip(format!("other error: {}", dg.code));
         }
     }
